@@ -122,12 +122,32 @@ pub fn fill(seed: u32, len: usize) -> Vec<u8> {
         let take = (len - out.len()).min(8);
         out.extend_from_slice(&b[..take]);
     }
-    if seed == 0 {
-        for b in out.iter_mut() {
-            *b = 0;
-        }
+    // content classes with reserved seeds: all zero, all 0xFF, printable ASCII, one repeated byte
+    match seed {
+        0 => out.iter_mut().for_each(|b| *b = 0),
+        SEED_ONES => out.iter_mut().for_each(|b| *b = 0xff),
+        SEED_ASCII => out.iter_mut().for_each(|b| *b = b'a' + (*b % 26)),
+        SEED_CRLF => out.iter_mut().enumerate().for_each(|(i, b)| *b = b"\r\n\r\n\0\r\nQUIT\n"[i % 12]),
+        _ => {}
     }
     out
+}
+
+pub const SEED_ONES: u32 = 0xffff_ffff;
+pub const SEED_ASCII: u32 = 0xffff_fffe;
+/// the v2 signature repeated (content that looks like the start of a nested header)
+pub const SEED_CRLF: u32 = 0xffff_fffd;
+
+/// A fill seed from the tape: mostly random content, but one value in four is one of the content classes
+/// (all zero / all 0xFF / ASCII letters / signature bytes) that pure random bytes never produce.
+pub fn gen_seed(t: &mut Tape) -> u32 {
+    match t.weighted(&[12, 2, 1, 1, 1]) {
+        0 => t.u32() | 1,
+        1 => 0,
+        2 => SEED_ONES,
+        3 => SEED_ASCII,
+        _ => SEED_CRLF,
+    }
 }
 
 // ---------------------------------------------------------------------------------------------
